@@ -529,9 +529,10 @@ def load_database(dbpath, rootdir):
 
             entry["file"] = path
 
-            # Include paths may be specified relative to root
+            # Include paths may be specified relative to the directory in
+            # which the command runs (the root, unless specified otherwise).
             entry["include_paths"] = [
-                os.path.abspath(os.path.join(rootdir, f))
+                os.path.abspath(os.path.join(filedir, f))
                 for f in entry["include_paths"]
             ]
 
